@@ -8,9 +8,13 @@ the per-version `changed` set, `update_glue_flag`, `Delegations.get_delegation /
 `ImmutableVersion.bounds`) on a sorted association list keyed by names in the canonical order of
 `Name.fullcompare`.
 
-`Variant` carries the decision points at which the unchanged tree violates the property (DESIGN §6 D15, D16,
-D19, D20 and CNAME-at-a-cut): `asShipped` is the code, `intended` the repair.  The specification
-(`flagsSpec`, `delegsSpec`, `boundsSpec`) is part of the model file and is a function of the node contents only:
+`Variant` carries the five decision points at which the pinned tree violated the property (DESIGN §6 D15, D16,
+D19, D20 and CNAME-at-a-cut).  All five are repaired in /repo (487318e, a145603, d608fe5, a30e868, 5dc8eac), so
+`intended` **is the code** and the full theorems below (`flags_eq_spec`, `index_eq_spec` with `intended_unguarded`,
+`bounds_eq_spec`) are the statements of record; `asShipped` is the code before the repairs, kept with the guarded
+`_partial` theorems and the counter-examples so that the former defects stay documented and kernel-checked.
+The specification (`flagsSpec`, `delegsSpec`, `boundsSpec`) is part of the model file and is a function of the node
+contents only:
 
 * `isDelegSpec n` ⇔ `n` is not the apex, owns NS, and no proper ancestor other than the apex owns NS;
 * `isGlueSpec n` ⇔ some proper ancestor of `n` is a delegation point;
@@ -87,15 +91,15 @@ example : (runHist asShipped cfgRel (initState false)
 /-- **"after any history of committed transactions (including the initial load, in any record order) the
 derived state is exactly what the documentation defines from the zone content alone: the origin flag on the
 apex, the delegation flag and a delegation-index entry for every non-apex NS owner that is not beneath another
-one, the glue flag on every name strictly beneath such an owner"** — for the code *with the repairs* of D15, D16
-and CNAME-at-a-cut (`intended`), for every history of transactions over legal names (committed, rolled back,
+one, the glue flag on every name strictly beneath such an owner"** — for the code as it is (`intended`: the
+repairs of D15, D16 nested cuts and CNAME-at-a-cut are in /repo), with no guard, for every history of transactions over legal names (committed, rolled back,
 replacement, failing operations included), relativized or absolute, whatever state a new zone starts in. -/
 theorem flags_eq_spec (cfg : Cfg) (hc : WfCfg cfg) (init : Bool) (h : List Txn) (hw : ∀ t ∈ h, TxnWf t) :
     FlagsAndIndexRight cfg (runHist intended cfg (initState init) h) :=
   flagsAndIndexRight_of_good (runHist_good hc (zGood_init cfg init) hw (histGuard_intended cfg _ h))
 
-/-- The same for **any** variant — in particular the code as shipped (`asShipped`), or the code with only some
-of the repairs — under the decidable guard `histGuard`, which for each decision point left as shipped excludes
+/-- The same for **any** variant — in particular the code before the repairs (`asShipped`), or with only some
+of them — under the decidable guard `histGuard`, which for each decision point left as shipped excludes
 exactly its trigger: (D15) a non-NS rdataset written or deleted at a delegation point whose node was not yet
 copied in the current transaction; (D16) a delegation point created or removed above an NS owner; a CNAME-kind
 rdataset written at a delegation point.
@@ -154,7 +158,7 @@ example : TxnWf ⟨true, [.put [] soa, .put nA ns, .delRds nXA ns, .delName nC, 
 
 /-- **"for every query name the bounds query returns the true nearest predecessor and successor among
 non-occluded names, the true closest encloser (counting empty non-terminals), and whether the name is at or
-below a delegation"** — repaired variant, every history, every legal query name (names outside the zone get
+below a delegation"** — the code as it is (`intended`, D19 and D20 repaired), no guard, every history, every legal query name (names outside the zone get
 `KeyError`; a zone without a visible name at or before the query gets the assertion of the code). -/
 theorem bounds_eq_spec (cfg : Cfg) (hc : WfCfg cfg) (init : Bool) (h : List Txn) (hw : ∀ t ∈ h, TxnWf t)
     (q : Name) (hq : NoInnerEmpty q) :
@@ -185,7 +189,7 @@ example :
         (fun b => (b.left, b.right, b.closestEncloser, b.isEqual, b.isDelegation))
      | none => none) = some (ab 97, some (ab 99), ab 97, false, true) := by decide
 
-/-! ## the defects of the unchanged tree, as kernel-checked counter-examples on the model of the shipped code -/
+/-! ## the former defects (all repaired in /repo), as kernel-checked counter-examples on the model of the code before the repairs -/
 
 /-- D15: a DS added at the cut `a` in a later transaction drops its DELEGATION flag. -/
 theorem flags_eq_spec_fails_D15 :
